@@ -762,6 +762,7 @@ func TestProp(t *testing.T) {
 	enum := append(append(append(g.enumerate(), g.enumSigs()...), g.enumScopes()...), g.enumSpellings()...)
 	enum = append(enum, g.enumStruct()...)
 	enum = append(enum, g.enumPointers()...)
+	enum = append(enum, g.enumExprLib()...)
 	okAll := true
 	for i, c := range enum {
 		if i%shards != shard {
